@@ -34,7 +34,7 @@ func (restart) Name() string    { return "restart" }
 func (restart) Props() []string { return []string{"C20"} }
 func (restart) Runs(tier string) int64 {
 	if tier == "thorough" {
-		return 60000
+		return 80000
 	}
 	return 1200
 }
